@@ -147,8 +147,17 @@ fn build_source(kind: SrcKind) -> Built {
     });
     src.crash();
     if kind == SrcKind::MixedDeleteJournal {
+        // the node's connections may still be closing on their threads: wait for the lock
         let c = rusqlite::Connection::open(&db).unwrap();
-        let _: String = c.query_row("PRAGMA journal_mode = DELETE", [], |r| r.get(0)).unwrap();
+        c.busy_timeout(Duration::from_secs(30)).unwrap();
+        let start = Instant::now();
+        loop {
+            match c.query_row("PRAGMA journal_mode = DELETE", [], |r| r.get::<_, String>(0)) {
+                Ok(m) if m == "delete" => break,
+                _ if start.elapsed() > Duration::from_secs(30) => machinery_error("could not switch the source to a rollback journal"),
+                _ => std::thread::sleep(Duration::from_millis(20)),
+            }
+        }
     }
     Built { _scratch: s, db, actor, others }
 }
@@ -375,6 +384,14 @@ fn main() {
     }
     let deadline = Instant::now() + Duration::from_secs(cli.tier.pick(150, 900));
     let (n, mut cap) = part_a(&rep, cli.tier, deadline);
+    // part A's verdict must not be lost to anything that happens in part B
+    if rep.violation_count() > 0 {
+        rep.set("states", n);
+        rep.set("transitions", n);
+        rep.set("part_b", json!({"skipped": "part A reported a violation"}));
+        rep.set("exhaustive", false);
+        rep.finish();
+    }
     let b = part_b::part_b(&rep, cli.tier, Instant::now() + Duration::from_secs(cli.tier.pick(240, 900)));
     let nb = b["schedules"].as_u64().unwrap_or(0);
     if b["not_run_time_cap"].as_u64().unwrap_or(0) > 0 {
